@@ -60,6 +60,17 @@ def vstr(v):
     return repr(v)
 
 
+def nb_ref(v):
+    """the annotation string of a value as the bundled corpora write it (reference for nb_str)"""
+    if v[0] == "T":
+        return "Time[]{" + vstr(v) + "}"
+    if v[0] == "I":
+        return "Interval[]{" + vstr(v[1]) + " - " + vstr(v[2]) + "}"
+    if v[0] == "D":
+        return "Duration[]{" + "{} {}".format(v[1], v[2]) + "}"
+    raise ValueError(v)
+
+
 # ---------------------------------------------------------------------------------
 # normaliser oracle (C11; coordinate system of spans)
 
